@@ -968,3 +968,69 @@ Definition str_step (op : sop) (s : str) (k : nat) : result * str * nat :=
 End StrModel.
 
 Definition all_ok : nat -> bool := fun _ => true.
+
+(* ------------------------------------------------------------------------------------------------------------------ *)
+(* support/arena.cpp: Arena::alloc_oneshot (inline bump) / _alloc_oneshot (next blocks after a soft reset, new block by   *)
+(* malloc) / reset(soft | hard) under a heap oracle.  A block is its usable size (ManagedBlock::size); the blocks up to    *)
+(* the current one are never released by an allocation, the spare blocks behind it (present after a soft reset) are.       *)
+(* ------------------------------------------------------------------------------------------------------------------ *)
+Section ArenaModel.
+Variable okh : nat -> bool.      (* does the k-th malloc succeed *)
+
+Record arena := mkarena {
+  a_pre : list Z;      (* usable sizes of the blocks from _first_block up to _current_block (empty: the static zero block) *)
+  a_rem : Z;           (* _end - _ptr *)
+  a_nxt : list Z;      (* blocks behind the current one *)
+  a_shift : Z;         (* _current_block_size_shift *)
+  a_min : Z }.         (* _min_block_size_shift *)
+
+Definition arena_hdr : Z := 16.           (* sizeof(ManagedBlock) *)
+Definition arena_ovh : Z := 32.           (* Globals::kAllocOverhead; kArenaAlignmentOverhead = 0 *)
+Definition arena_max_shift : Z := 26.
+Definition size_max : Z := 18446744073709551615.
+
+Definition arena_init (shift : Z) : arena := mkarena [] 0 [] shift shift.
+
+(* the loop over the next blocks: the first one that fits is taken, the ones in front of it are freed *)
+Fixpoint take_next (size : Z) (nxt : list Z) : option (Z * list Z) :=
+  match nxt with
+  | [] => None
+  | b :: t => if size <=? b then Some (b, t) else take_next size t
+  end.
+
+Definition arena_alloc (size : Z) (a : arena) (k : nat) : result * arena * nat :=
+  if size <=? a_rem a then (Ok, mkarena (a_pre a) (a_rem a - size) (a_nxt a) (a_shift a) (a_min a), k)
+  else
+    match take_next size (a_nxt a) with
+    | Some (b, t) => (Ok, mkarena (a_pre a ++ [b]) (b - size) t (a_shift a) (a_min a), k)
+    | None =>
+        let bs := 2 ^ a_shift a in
+        let big := bs - (arena_hdr + arena_ovh) <? size in
+        if big && (size_max - (arena_hdr + arena_ovh) <? size) then (Oom, mkarena (a_pre a) (a_rem a) [] (a_shift a) (a_min a), k)
+        else
+          let block_size := if big then size + arena_hdr else bs - arena_ovh in
+          let '(b, k1) := (okh k, S k) in
+          if b then (Ok, mkarena (a_pre a ++ [block_size - arena_hdr]) (block_size - arena_hdr - size) []
+                                 (Z.min (a_shift a + 1) arena_max_shift) (a_min a), k1)
+          else (Oom, mkarena (a_pre a) (a_rem a) [] (a_shift a) (a_min a), k1)
+    end.
+
+Inductive aop := AAlloc (size : Z) | AReset (hard : bool).
+
+Definition arena_reset (hard : bool) (a : arena) : arena :=
+  if hard then mkarena [] 0 [] (a_min a) (a_min a)
+  else match a_pre a ++ a_nxt a with
+       | [] => a
+       | f :: t => mkarena [f] f t (a_shift a) (a_min a)
+       end.
+
+Definition arena_step (op : aop) (a : arena) (k : nat) : result * arena * nat :=
+  match op with
+  | AAlloc size => arena_alloc size a k
+  | AReset hard => (Ok, arena_reset hard a, k)
+  end.
+
+(* where the bytes of the last successful allocation lie: (index of the block, offset inside it) *)
+Definition arena_last (size : Z) (a : arena) : nat * Z := ((length (a_pre a) - 1)%nat, last (a_pre a) 0 - a_rem a - size).
+
+End ArenaModel.
